@@ -75,6 +75,22 @@ fn f_cmd(nd: u32, np: u32, ins: usize, copy: usize, code: usize, dc: usize) -> S
     }
 }
 
+/// build a command under (nd0, np0), then RecomputeDistancePrefixes to (nd1, np1) through the hook
+fn f_recmd(nd0: u32, np0: u32, nd1: u32, np1: u32, ins: usize, copy: usize, code: usize, dc: usize) -> String {
+    match guarded(move || {
+        let d0 = BrotliDistanceParams { distance_postfix_bits: np0, num_direct_distance_codes: nd0, alphabet_size: 0, max_distance: 0 };
+        let d1 = BrotliDistanceParams { distance_postfix_bits: np1, num_direct_distance_codes: nd1, alphabet_size: 0, max_distance: 0 };
+        let mut cmds = [Command::new(&d0, ins, copy, code, dc)];
+        brotli::enc::metablock::verif_recompute_distance_prefixes(&mut cmds, 1, &d0, &d1);
+        let c = cmds[0];
+        let r = c.restore_distance_code(&d1);
+        format!("{} {} {} {} {} | {}", c.insert_len_, c.copy_len_, c.dist_extra_, c.cmd_prefix_, c.dist_prefix_, r)
+    }) {
+        Ok(s) => s,
+        Err(e) => e,
+    }
+}
+
 fn main() {
     quiet_panics();
     serve(|t| {
@@ -86,6 +102,7 @@ fn main() {
             "blen" => f_blen(p(1) as u32),
             "pdist" => f_pdist(p(1), p(2), p(3) as u64),
             "cmd" => f_cmd(p(1) as u32, p(2) as u32, p(3), p(4), p(5), p(6)),
+            "recmd" => f_recmd(p(1) as u32, p(2) as u32, p(3) as u32, p(4) as u32, p(5), p(6), p(7), p(8)),
             "R" => {
                 let (lo, hi) = (p(2), p(3));
                 let (nd, np) = if t.len() >= 6 { (p(4), p(5)) } else { (0, 0) };
